@@ -31,7 +31,7 @@ def run(ctx) -> None:
     ctx.rule("d.preview", "preview = first H + marker + last T rows iff len > limit, else everything; as functions of the row limit n "
                           "(explicit or global default): threshold = n, H + T = n, H, T >= 1; the per-table limit reaches the formatter "
                           "unchanged and is the same for every displayed column", 3)
-    ctx.rule("e.headers", "display names are the stored names (quoted by repr when needed), never the sanitised ones", 2)
+    ctx.rule("e.headers", "display names are the stored names (quoted by repr when needed; no name is not the name ''), never the sanitised ones", 3)
     ctx.rule("f.pure", "repr writes no content field of the object", 3)
     ctx.rule("g.definite-assignment", "every read of a local in the display code is definitely assigned: on each CFG path from the entry "
                                       "to the read that by-passes all bindings, the branch outcomes taken are contradictory (same "
@@ -1160,17 +1160,32 @@ def _headers(ctx) -> None:
         for el in elements(it, disp):
             n += 1
             v = el.value if el.kind == "elem" else (el.term[2][0] if el.term[2] else None)
-            ok = False
+            ok = folded = False
             for L in el.loops:
                 col = ("elem", COLS, L)
                 nm = ("attr", col, "_name")
-                if v in (("bool", "or", (nm, const(""))), ("ifexp", nm, nm, const("")), ("ifexp", ("cmp", "Is", nm, ("const", "NoneType", None)), const(""), nm)):
+                # the stored name itself: '' is a name like any other, so NO NAME (None) must stay apart from every text - the raw
+                # name, or a stand-in that is not a text chosen for `name is None` only
+                NONE_ = ("const", "NoneType", None)
+                if v == nm:
                     ok = True
-            if not ok:
-                problems.append(f"a display name is `{show(v, it)[:50]}`, not `col._name or ''`")
+                elif v[0] == "ifexp" and v[1] in (("cmp", "Is", nm, NONE_), ("cmp", "Is", NONE_, nm)) and v[3] == nm \
+                        and not (v[2][0] == "const" and isinstance(v[2][2], str)):
+                    ok = True
+                elif v[0] == "ifexp" and v[1] in (("cmp", "IsNot", nm, NONE_), ("cmp", "IsNot", NONE_, nm)) and v[2] == nm \
+                        and not (v[3][0] == "const" and isinstance(v[3][2], str)):
+                    ok = True
+                elif v in (("bool", "or", (nm, const(""))), ("ifexp", nm, nm, const("")), ("ifexp", ("cmp", "Is", nm, NONE_), const(""), nm)):
+                    folded = True
+            if not ok and folded:
+                problems.append(f"a display name is `{show(v, it)[:50]}`: a column WITHOUT a name and a column named '' get the same display "
+                                f"name - Table({{'': [1, 2]}}) loses its name row, and next to a named column an unnamed one is printed "
+                                f"under the header ''")
+            elif not ok:
+                problems.append(f"a display name is `{show(v, it)[:50]}`, not the stored name `col._name`")
     if not n:
         problems.append("display names not found")
-    ctx.ob("e.headers", f, "display-name", not problems, "display name = stored name (or '' when unnamed)", f.node,
+    ctx.ob("e.headers", f, "display-name", not problems, "display name = stored name (None, not '', when unnamed)", f.node,
            message="the header's display names are not the stored column names: " + "; ".join(problems[:2]))
     g = prog.func("display._header_rows")
     gi = interp_of(prog, g)
@@ -1214,8 +1229,12 @@ def _headers(ctx) -> None:
                         elif x[1] in ("Eq", "NotEq") and o[0] == "const" and isinstance(o[2], str):
                             problems.append(f"a display name is compared by value with the text {o[2]!r} (`{show(x, gi)[:40]}`): a column "
                                             f"really named {o[2]!r} is taken for the marker and loses its header")
-        for sit, atoms, want in (("needs quoting", {**marker_atoms, nq: True, name: True}, ("call", ("name", "repr"), (name,), ())),
-                                 ("plain", {**marker_atoms, nq: False, name: True}, name)):
+        NONE_ = ("const", "NoneType", None)
+        isnone = lambda b: {("cmp", "Is", name, NONE_): b, ("cmp", "Is", NONE_, name): b}
+        for sit, atoms, want in (("needs quoting", {**marker_atoms, nq: True, name: True, **isnone(False)}, ("call", ("name", "repr"), (name,), ())),
+                                 ("plain", {**marker_atoms, nq: False, name: True, **isnone(False)}, name),
+                                 ("the empty name ''", {**marker_atoms, nq: True, name: False, **isnone(False)}, ("call", ("name", "repr"), (name,), ())),
+                                 ("missing (the column has no name)", {**marker_atoms, nq: True, name: False, **isnone(True)}, const(""))):
             got = []
             for e in els:
                 inside = e.conds[base:]
@@ -1244,9 +1263,16 @@ def _headers(ctx) -> None:
                     filt = flatten_conds(se[1])
                     marker_only = len(filt) == 1 and not filt[0][1] and filt[0][0][0] == "cmp" and filt[0][0][1] == "Is" \
                         and nm in (filt[0][0][2], filt[0][0][3]) and (filt[0][0][3] if filt[0][0][2] == nm else filt[0][0][2])[0] == "name"
-                    if se[2] == nm and (filt == [] or marker_only):
+                    NONE_ = ("const", "NoneType", None)
+                    has_name = se[2] in (("cmp", "IsNot", nm, NONE_), ("cmp", "IsNot", NONE_, nm), ("un", "Not", ("cmp", "Is", nm, NONE_)),
+                                         ("un", "Not", ("cmp", "Is", NONE_, nm)))
+                    if has_name and (filt == [] or marker_only):
                         ok = True
-                    elif se[2] == nm and len(filt) == 1 and filt[0][0][0] == "cmp" and filt[0][0][1] == "Eq":
+                    elif se[2] == nm and (filt == [] or marker_only):
+                        problems.append("whether any column has a name is decided by the TRUTH of the display names: a table whose only "
+                                        "names are '' - Table({'': [1, 2]}) - is printed without its name row, like a table without names")
+                        ok = True
+                    elif (has_name or se[2] == nm) and len(filt) == 1 and filt[0][0][0] == "cmp" and filt[0][0][1] == "Eq":
                         problems.append(f"the display names are filtered by value (`{show(filt[0][0], gi)[:40]}`): a column really named like "
                                         f"the marker does not count as named")
                         ok = True
@@ -1255,6 +1281,16 @@ def _headers(ctx) -> None:
             if not ok:
                 problems.append(f"the row of display names is shown only when `{show_conds(u.conds, gi)[:80]}`, expected: whenever any displayed "
                                 f"column has a name (a table with some unnamed columns would lose the names of the others)")
+    # a vector's own name line: shown whenever the vector HAS a name ('' included) - nothing in _repr_vector depends on the truth of
+    # the name
+    rv = prog.func("display._repr_vector")
+    ri = interp_of(prog, rv)
+    VN = ("attr", ("param", rv.params[0]), "_name")
+    by_truth = [e for e in ri.events for c, _pol in flatten_conds(e.conds) if c == VN]
+    named = [e for e in ri.events for c, _pol in flatten_conds(e.conds) if c[0] == "cmp" and c[1] in ("Is", "IsNot") and VN in (c[2], c[3])]
+    ctx.ob("e.headers", rv, "vector-name", not by_truth and bool(named), "the name line of a vector is shown iff its name is not None", (by_truth[0].node if by_truth else rv.node),
+           message="_repr_vector decides by the TRUTH of the name whether it is shown: a vector named '' is printed without its name line, "
+                   "exactly like a vector without a name")
     ctx.ob("e.headers", g, "header-row", not problems, "names printed verbatim, quoted by repr when needed", g.node,
            message="_header_rows no longer prints the display names verbatim / repr-quoted: " + "; ".join(problems[:2]))
 
@@ -1292,7 +1328,7 @@ MUTANTS = [
          rules=["a.element-truth"], desc="the defect repaired by fix cd85498: repr of an object vector with a Vector cell raises"),
     dict(id="cell-truthiness-before-kind", module=_D, old="		elif v is None:\n			out.append('None')",
          new="		elif v is None or not v and v != 0:\n			out.append('None')", rules=["a.element-truth"]),
-    dict(id="header-shows-sanitised", module=_D, old="		disp = col._name or \"\"", new="		disp = san or \"\"", rules=["e.headers"]),
+    dict(id="header-shows-sanitised", module=_D, old="		disp = col._name\n", new="		disp = san\n", rules=["e.headers"]),
     dict(id="width-from-first-cell", module=_D, old="		body_width = max(len(s) for s in formatted_cols[c]) if formatted_cols[c] else 0",
          new="		body_width = len(formatted_cols[c][0])", rules=["b.empty-guards"]),
     dict(id="max-unguarded", module=_D, old="	max_len = max(len(s) for s in out) if out else 0", new="	max_len = max(len(s) for s in out)", rules=["b.empty-guards"]),
@@ -1303,15 +1339,19 @@ MUTANTS = [
          rules=["c.footer"]),
     dict(id="repr-marks-tame", module=_D, old="	nd = len(pv.shape)\n	if nd <= 1:", new="	nd = len(pv.shape)\n	pv._display_as_row = False\n	if nd <= 1:",
          rules=["f.pure"]),
-    dict(id="header-guards-disagree", module=_D, old="	if v._name:\n		lines.append(header_text", new="	if v._name is not None:\n		lines.append(header_text",
+    dict(id="header-guards-disagree", module=_D, old="	if v._name is not None:\n		header_text", new="	if v._name:\n		header_text",
          rules=["g.definite-assignment"], desc="a vector named '' reaches header_text unbound"),
     dict(id="header-binding-only-when-quoted", module=_D, old="		header_text = repr(v._name) if _needs_quote(v._name) else v._name\n",
          new="		if _needs_quote(v._name):\n			header_text = repr(v._name)\n", rules=["g.definite-assignment"]),
-    dict(id="twin-header-guards-both-explicit", module=_D, twin=True,
-         edits=[(_D, "	if v._name:\n		header_text", "	if v._name is not None:\n		header_text", 1),
-                (_D, "	if v._name:\n		lines.append(header_text", "	if v._name is not None:\n		lines.append(header_text", 1)]),
+    dict(id="vector-name-shown-by-truth", module=_D, rules=["e.headers"], desc="reverts fix d7527a4 (vector part): a vector named '' prints no name line",
+         edits=[(_D, "	if v._name is not None:\n		header_text", "	if v._name:\n		header_text", 1),
+                (_D, "	if v._name is not None:\n		lines.append(header_text", "	if v._name:\n		lines.append(header_text", 1)]),
+    dict(id="unnamed-column-under-empty-name", module=_D, rules=["e.headers"], desc="reverts fix d7527a4 (table part)",
+         old="		disp = col._name\n", new="		disp = col._name or \"\"\n"),
+    dict(id="name-row-by-truth", module=_D, rules=["e.headers"], desc="reverts fix d7527a4 (any_display)",
+         old="	any_display = any(n is not None for n in display_names if n is not _COL_DOTS)", new="	any_display = any(n for n in display_names if n is not _COL_DOTS)"),
     dict(id="twin-header-guard-stronger-at-use", module=_D, twin=True,
-         old="	if v._name:\n		lines.append(header_text", new="	if v._name and len(formatted) >= 0:\n		lines.append(header_text"),
+         old="	if v._name is not None:\n		lines.append(header_text", new="	if v._name is not None and len(formatted) >= 0:\n		lines.append(header_text"),
     dict(id="twin-finite-nested-if", module=_D, twin=True,
          old="				out.append(f\"{v:.1f}\" if math.isfinite(v) and v == int(v) else f\"{v:g}\")",
          new="				if math.isfinite(v) and v == int(v):\n					out.append(f\"{v:.1f}\")\n				else:\n					out.append(f\"{v:g}\")"),
